@@ -4,7 +4,7 @@ from .lib import cz, cbool, clist, coq_mismatches
 LEVEL = "proof"
 META = {
     "category": "proof",
-    "text": "Coq theorems over a model (Go integer widths explicit) of the pc->(line,col) table of internal/compile/compile.go: clip, the delta-encoding loop of fcomp.generate (4-bit pc, 5-bit line, 6-bit column deltas, continuation bit, uint16 packing), Funcode.decodeLNT and the binary search of Funcode.Position. lnt_roundtrip: for ALL instruction lists with uint32 pc and int32 line/col (any deltas, wrap-around included, any length) decodeLNT(encode rows) = the positioned rows; the encoder's inner loop terminates within a proved bound and never panics; position_lookup: the binary search returns the last row with pc' <= pc for every table length; the shift/mask bridge is a complete enumeration of the 65536 field combinations inside Coq. callstack_shape: over an abstract call/step/return/fail event machine mirroring starlark.Call / CallInternal (fr.pc saved before each instruction, push/pop, error wrapped once with a copy of the frame stack) the CallStack attached to the error is exactly the list of active calls, outermost first, each at its pending call / failing instruction. Tie to /repo on every run: the real generate / decodeLNT / Position are run through verif hooks on generated rows (boundary deltas, column jumps of 10^4, line gaps of 10^5, negative and wrapping deltas, thousands of rows) and compared with the model and with the independent specification inside Coq; generated Starlark programs with call chains of depth 1-8 through defs, lambdas, closures, comprehensions, built-in callbacks and 19 kinds of failing operation placed at generator-chosen (line, col) are executed, and EvalError.CallStack / Backtrace() are compared with the positions the generator wrote, before and after a serialisation round trip.",
+    "text": "Coq theorems over a model (Go integer widths explicit) of the pc->(line,col) table of internal/compile/compile.go: clip, the delta-encoding loop of fcomp.generate (4-bit pc, 5-bit line, 6-bit column deltas, continuation bit, uint16 packing), Funcode.decodeLNT and the binary search of Funcode.Position. lnt_roundtrip: for ALL instruction lists with uint32 pc and int32 line/col (any deltas, wrap-around included, any length) decodeLNT(encode rows) = the positioned rows; the encoder's inner loop terminates within a proved bound and never panics; position_lookup: the binary search returns the last row with pc' <= pc for every table length; the shift/mask bridge is a complete enumeration of the 65536 field combinations inside Coq. callstack_shape: over an abstract call/step/return/fail event machine mirroring starlark.Call / CallInternal (fr.pc saved before each instruction, push/pop, error wrapped once with a copy of the frame stack) the CallStack attached to the error is exactly the list of active calls, outermost first, each at its pending call / failing instruction. slice_carries_position: the repaired compiler puts the position of '[' on the SLICE instruction for every slice expression (History.v: the code before fix 103924d left it without one). Tie to /repo on every run: the real generate / decodeLNT / Position are run through verif hooks on generated rows (boundary deltas, column jumps of 10^4, line gaps of 10^5, negative and wrapping deltas, thousands of rows) and compared with the model and with the independent specification inside Coq; generated Starlark programs with call chains of depth 1-8 through defs, lambdas, closures, comprehensions, built-in callbacks and 25 kinds of failing operation placed at generator-chosen (line, col) are executed, and EvalError.CallStack / Backtrace() are compared with the positions the generator wrote, before and after a serialisation round trip; generated call histories with a probe built-in recording thread.CallStack() are replayed through the event machine of Stack.v.",
     "note": "Trusted: Coq kernel + vm_compute; the correspondence harness and its program generator (expected positions are the positions of the operator tokens the generator wrote). Not modelled in Coq: the compiler's setPos discipline (which instruction carries which token's position) and the interpreter loop itself -- both are exercised by the generated programs only. Position tables with decreasing pc are covered by the theorem but not run on the real encoder (2^32/15 entries).",
     "technique": "Coq proof over executable model + differential correspondence (vm_compute) + Spec.v oracle + generated failing programs with known positions",
 }
@@ -135,7 +135,7 @@ def frames_match(exp, got):
         e, g = exp[i], got[i]
         if e["name"] != g["name"] or (e.get("file") or "") != (g.get("file") or ""):
             return i
-        if e["line"] >= 0 and (e["line"] != g["line"] or e["col"] != g["col"]):
+        if e["line"] >= 0 and (e["line"] != g["line"] or not (e["col"] <= g["col"] <= max(e["col"], e.get("colmax", 0)))):
             return i
     return None
 
@@ -151,7 +151,7 @@ def run(ctx):
     ncodec = 330 if quick else 6600
     cases = ctx.jsonl([hx, "-mode", "codec", "-seed", str(ctx.seed), "-n", str(ncodec)], timeout=600)
     ctx.log("codec: %d cases from the real generate/decodeLNT/Position" % len(cases))
-    budget = 9000 if quick else 180000   # cost units (numbers parsed + table entries / 8) evaluated inside Coq
+    budget = 6000 if quick else 180000   # cost units (numbers parsed + table entries / 8) evaluated inside Coq
     terms, refs, costs = [], [], []
     used = 0
     class_used = {}
@@ -190,7 +190,7 @@ def run(ctx):
     progs = ctx.jsonl([hx, "-mode", "prog", "-seed", str(ctx.seed), "-n", str(nprog), "-lnt", str(nlnt)], timeout=800)
     ctx.log("prog: %d generated failing programs executed" % len(progs))
     nprob = 0
-    tbudget = 5000 if quick else 80000
+    tbudget = 3000 if quick else 80000
     tused = 0
     layouts = {}
     for p in progs:
@@ -262,7 +262,7 @@ def run(ctx):
             ctx.finding("trace:callstack-inside-builtin", "thread.CallStack() seen by a built-in differs from the active calls of the generated history", rep)
         if t["final"] != t["exp_final"]:
             ctx.finding("trace:final-callstack", "EvalError.CallStack differs from the active calls of the generated history at the failure", rep)
-        if ntr < (60 if quick else 1200):
+        if ntr < (40 if quick else 1200):
             ntr += 1
             evs = []
             for tag, a in t["events"]:
@@ -274,9 +274,9 @@ def run(ctx):
     ctx.log("trace: %d generated histories (%d also run through the machine of Stack.v)" % (len(traces), ntr))
 
     # ------------------------------------------------ 3. model and specification inside Coq
-    ctx.log("evaluating %d cases in Coq (%d codec, %d real function tables; %d cost units)" % (len(terms), ncodec_terms, len(terms) - ncodec_terms, used + tused))
+    ctx.log("evaluating %d cases in Coq (%d codec, %d real function tables, %d histories; %d cost units)" % (len(terms), ncodec_terms, len(terms) - ncodec_terms - ntr, ntr, sum(costs)))
     bad_model, bad_spec = par_mismatches(ctx, "c16_cases", HEADER + CASEDEFS, terms, costs, ["model_ok", "spec_ok"],
-                                         per_shard=(1500 if quick else 12000), workers=8)
+                                         per_shard=(2600 if quick else 12000), workers=(4 if quick else 8))
     for i in bad_spec:
         c = refs[i]
         if c.get("kind") == "trace":
@@ -298,7 +298,7 @@ def run(ctx):
     cov = {
         "evaluations": len(cases) + len(progs) + len(traces),
         "distinct_nontrivial": nontrivial,
-        "rule": "codec: 11 generator classes x seeded cases run through the real generate/decodeLNT/Position (all checked by an independent Go oracle; those within the size budget also by C16.Model and C16.Spec inside Coq); nontrivial = cases with at least one saturated delta (continuation entry) + programs with at least one wide column / line gap / many-instruction layout. prog: 19 failing-operation kinds x 13 link kinds x depth 1-8, positions chosen by the generator; CallStack and Backtrace compared frame by frame, also after serialisation",
+        "rule": "codec: 11 generator classes x seeded cases run through the real generate/decodeLNT/Position (all checked by an independent Go oracle; those within the size budget also by C16.Model and C16.Spec inside Coq); nontrivial = cases with at least one saturated delta (continuation entry) + programs with at least one wide column / line gap / many-instruction layout. prog: 25 failing-operation kinds x 13 link kinds x depth 1-8, positions chosen by the generator; CallStack and Backtrace compared frame by frame, also after serialisation",
         "samples": samples + [{k2: c[k2] for k2 in ("class", "line", "col", "rows", "tab", "dec") if k2 in c} for c in cases[:40] if not c.get("big") and c["ntab"] < 40][:3],
         "distribution": dist,
         "coq_cases": len(terms), "coq_table_entries": sum((r["ntab"] if "ntab" in r else len(r.get("tab") or [])) for r in refs), "go_oracle_only_cases": go_only,
